@@ -1,11 +1,18 @@
 use crate::decoder::decode;
 use crate::decoder::ops::{Op, Register8, Register16, IndirectLocation, JumpCondition};
 use crate::cpu::{Registers, self};
-use crate::mem::{get_executable_memory_slice, memory_read_byte, memory_write_byte, memory_write_word, MemoryAreas};
+use crate::mem::{can_dynarec, get_executable_memory_slice, memory_read_byte, memory_write_byte, memory_write_word, MemoryAreas};
 
 pub fn run_code_block(registers: &mut Registers, mem: *mut MemoryAreas) -> u8 {
   let mut status = cpu::STATUS_NORMAL;
+  let start = registers.ip;
   loop {
+    // Blocks end before the last two bytes of a ROM region, exactly where a
+    // translated block ends (see mem::can_dynarec), so that both execution
+    // modes advance in the same steps.
+    if registers.ip != start && (registers.ip as usize) < 0x8000 && !can_dynarec(registers.ip as usize) {
+      break;
+    }
     match run_next_op(registers, mem) {
       Some((op_status, should_break)) => {
         status = op_status;
